@@ -2,7 +2,7 @@
    Print Assumptions. *)
 From Coq Require Import ZArith NArith List Bool Sorted.
 From Centro Require Import Base.GraphC15 Model.LabelGraph Spec.LabelGraph
-  Proofs.ColorC15 Proofs.DfsC15 Proofs.AccC15 Proofs.EulerC15 Proofs.RelabelC15 Proofs.NeighborsC15 Proofs.EulerQuadC15 Proofs.EulerStepC15 Proofs.AccCertC15 Proofs.SpecC15 Proofs.EulerTopoC15 Spec.EulerMovesC15 Spec.EulerReduceC15 Proofs.EulerSearchC15 Proofs.EulerHoleFreeC15 Proofs.EulerBridgeC15 Proofs.EulerHolesC15.
+  Proofs.ColorC15 Proofs.DfsC15 Proofs.AccC15 Proofs.EulerC15 Proofs.RelabelC15 Proofs.NeighborsC15 Proofs.EulerQuadC15 Proofs.EulerStepC15 Proofs.AccCertC15 Proofs.SpecC15 Proofs.EulerTopoC15 Spec.EulerMovesC15 Spec.EulerReduceC15 Proofs.EulerSearchC15 Proofs.EulerHoleFreeC15 Proofs.EulerBridgeC15 Proofs.EulerHolesC15 Proofs.EulerRasterC15 Proofs.EulerAllC15.
 Import ListNotations.
 
 (* ---- all_connected_components / _all_connected_components (Full, including termination) ----
@@ -346,3 +346,44 @@ Theorem C15_euler_singleton_holes : forall (l : Z) (im : image), l <> 0 -> rect 
   euler4 im l = 4 * euler_spec im l.
 Proof. exact euler_singleton_holes. Qed.
 Print Assumptions C15_euler_singleton_holes.
+
+(* ================================================================ round 6: the unrestricted statement by
+   induction over the pixels in raster order *)
+
+(* combinatorial half (Full; local table Finite-16 by kernel computation, lifted to every image): deleting
+   the raster-LAST pixel of a label changes 4 W by 4 (1 - k), k = number of 8-components of its set
+   neighbours among NW, N, NE, W (all later neighbours are background) *)
+Theorem C15_qdelta_last : forall nw n ne w : bool,
+  qdelta nw n ne w false false false false = 4 * (1 - k_last nw n ne w).
+Proof. exact qdelta_last. Qed.
+Print Assumptions C15_qdelta_last.
+
+Theorem C15_euler_delete_last_pixel : forall (im : image) (l y x : Z), rect im -> l <> 0 -> last_px im l y x ->
+  euler4 im l = euler4 (remove_px im y x) l +
+    4 * (1 - k_last (inS im l (y - 1) (x - 1)) (inS im l (y - 1) x) (inS im l (y - 1) (x + 1)) (inS im l y (x - 1))).
+Proof. exact euler_delete_last_pixel. Qed.
+Print Assumptions C15_euler_delete_last_pixel.
+
+(* C15_euler_all_images_partial (the property's sentence for EVERY label image).
+   Statement at full strength:  forall im l, rect im -> l <> 0 -> euler4 im l = 4 * euler_spec im l.
+   PROVED: exactly that, from ONE premise (written out below), the converse half of the digital Jordan lemma
+   at the raster-last pixel p: if the set neighbour u (W or NW) of p and NE(p) are NOT 8-connected without p
+   (p joins two objects), the background pixel N(p) between them is still 4-connected to S(p), i.e. to the
+   outside, when p is present.  Everything else is proved: the quad side (above); components - holes changes
+   by the same 1 - k for k = 0 (isolated point) and k = 1 (p is (8,4)-simple, C05 imported); for k = 2 the
+   dichotomy is decided by the flood fill, "same object" gives one more hole by C05's sep_not_connected
+   (crossing parity, imported) and new counting lemmas (AddBridge: a point joining two classes; AddAttached),
+   "different objects" gives one component less and - by the premise - no new hole; representative lists exist
+   for every image (box/plane bridge).  MISSING: that premise (EulerRasterC15.bridge_keeps_background); it is
+   the existence direction of the Jordan curve theorem (a background path around an object), C05 has only the
+   separation direction. *)
+Theorem C15_euler_all_images_partial :
+  (forall (Y : Topo.img) (L : list Topo.px) (p u : Topo.px), (forall q, Y q = true -> In q L) ->
+     Y p = true -> (forall q, Y q = true -> ~ TopoPar.ltr p q) ->
+     Y (EndPixelSep.pN p) = false -> Y (EndPixelSep.pNE p) = true ->
+     (u = EndPixelSep.pW p \/ u = EndPixelSep.pNW p) -> Y u = true ->
+     ~ Topo.path Topo.adj8 (fun q => Topo.fg Y q /\ q <> p) u (EndPixelSep.pNE p) ->
+     Topo.path Topo.adj4 (Topo.bg Y) (EndPixelSep.pN p) (EndPixelSep.pS p)) ->
+  forall (im : image) (l : Z), rect im -> l <> 0 -> euler4 im l = 4 * euler_spec im l.
+Proof. exact euler_is_components_minus_holes_all. Qed.
+Print Assumptions C15_euler_all_images_partial.
